@@ -8,7 +8,7 @@ use crate::cardsref::{alias_spelling, card_bit, card_name, card_word, spelling, 
 use crate::json::J;
 use crate::rng::{fold, Rng, FNV_OFFSET};
 use crate::sim::{at, Obs, Outcome, Violation, World};
-use crate::world_c19::{build as build_container, reg_set as container_set, Reg, VIA_ARR};
+use crate::world_c19::{build as build_container, reg_accessors as container_accessors, reg_set as container_set, Reg, VIA_ARR};
 use ckc_rs::cards::binary_card::{BinaryCard, BC64};
 use ckc_rs::cards::five::Five;
 use ckc_rs::cards::four::Four;
@@ -91,6 +91,8 @@ const PROBE_LIST: &[&str] = &[
     "hand_all_blank",
     "hand_all_distinct_cards",
     "hand_built_by_setters",
+    "hand_reads_back_differently_from_what_it_was_given_or_holds_non_card_words",
+    "container_call_panicked_operation_given_up",
     "hand_register_new",
     "hand_register_set",
     "hand_register_set_overwrites_card_also_held_elsewhere",
@@ -178,6 +180,8 @@ struct P {
     hand_all_blank: usize,
     hand_distinct: usize,
     hand_setters: usize,
+    hand_readback_differs: usize,
+    container_panicked: usize,
     hreg_new: usize,
     hreg_set: usize,
     hreg_set_dup: usize,
@@ -259,6 +263,8 @@ fn probes() -> &'static P {
         hand_all_blank: pi("hand_all_blank"),
         hand_distinct: pi("hand_all_distinct_cards"),
         hand_setters: pi("hand_built_by_setters"),
+        hand_readback_differs: pi("hand_reads_back_differently_from_what_it_was_given_or_holds_non_card_words"),
+        container_panicked: pi("container_call_panicked_operation_given_up"),
         hreg_new: pi("hand_register_new"),
         hreg_set: pi("hand_register_set"),
         hreg_set_dup: pi("hand_register_set_overwrites_card_also_held_elsewhere"),
@@ -448,97 +454,65 @@ fn order_of(n: usize, order: u8) -> Vec<usize> {
     v
 }
 
-fn build_hand_set(n: usize, slots: &[u8; 7], via_setters: bool, order: u8) -> BinaryCard {
-    let w: Vec<u32> = slots[..n].iter().map(|s| slot_word(*s)).collect();
+/// Building and writing containers is C19's subject. If one of those calls panics, the C15 world
+/// gives the operation up instead of reporting it.
+fn guarded<T>(f: impl FnOnce() -> T) -> Option<T> {
+    std::panic::catch_unwind(std::panic::AssertUnwindSafe(f)).ok()
+}
+
+/// The container a set is built from: from an array, or from a default container that received
+/// its words through setter calls in some order.
+fn build_hand_container(n: usize, slots: &[u8; 7], via_setters: bool, order: u8) -> Reg {
+    let mut w = [0u32; 7];
+    for k in 0..n {
+        w[k] = slot_word(slots[k]);
+    }
     if !via_setters {
-        return match n {
-            2 => BinaryCard::from_two(Two::from([w[0], w[1]])),
-            3 => BinaryCard::from_three(Three::from([w[0], w[1], w[2]])),
-            4 => BinaryCard::from_four(Four::from([w[0], w[1], w[2], w[3]])),
-            5 => BinaryCard::from_five(Five::from([w[0], w[1], w[2], w[3], w[4]])),
-            6 => BinaryCard::from_six(Six::from([w[0], w[1], w[2], w[3], w[4], w[5]])),
-            _ => BinaryCard::from_seven(Seven::from([w[0], w[1], w[2], w[3], w[4], w[5], w[6]])),
-        };
+        return build_container(n, VIA_ARR, &w).0;
     }
-    // a live container that received its words through setter calls in some order
-    let ord = order_of(n, order);
-    match n {
-        2 => {
-            let mut h = Two::default();
-            for k in ord {
-                match k {
-                    0 => h.set_first(w[0]),
-                    _ => h.set_second(w[1]),
-                }
+    let mut reg = match n {
+        2 => Reg::Two(Two::default()),
+        3 => Reg::Three(Three::default()),
+        4 => Reg::Four(Four::default()),
+        5 => Reg::Five(Five::default()),
+        6 => Reg::Six(Six::default()),
+        _ => Reg::Seven(Seven::default()),
+    };
+    for k in order_of(n, order) {
+        container_set(&mut reg, k, w[k]);
+    }
+    reg
+}
+
+fn set_from_container(reg: &Reg) -> BinaryCard {
+    match *reg {
+        Reg::Two(x) => BinaryCard::from_two(x),
+        Reg::Three(x) => BinaryCard::from_three(x),
+        Reg::Four(x) => BinaryCard::from_four(x),
+        Reg::Five(x) => BinaryCard::from_five(x),
+        Reg::Six(x) => BinaryCard::from_six(x),
+        Reg::Seven(x) => BinaryCard::from_seven(x),
+    }
+}
+
+/// What the container says it holds, read through its positional accessors (the same ones the
+/// conversion uses): a deck index or blank per slot, or None when some slot holds a word that is
+/// neither. Whether a container stores what it was given is C19's subject, not C15's: the set is
+/// judged against what the hand holds at the moment of conversion.
+fn observed_slots(reg: &Reg) -> Option<([u8; 7], usize)> {
+    let (acc, n) = container_accessors(reg);
+    let mut out = [BLANK_SLOT; 7];
+    for k in 0..n.min(7) {
+        if acc[k] == 0 {
+            out[k] = BLANK_SLOT;
+        } else {
+            match (0..52).find(|i| card_word(*i) == acc[k]) {
+                Some(i) => out[k] = i as u8,
+                None => return None,
             }
-            BinaryCard::from_two(h)
-        }
-        3 => {
-            let mut h = Three::default();
-            for k in ord {
-                match k {
-                    0 => h.set_first(w[0]),
-                    1 => h.set_second(w[1]),
-                    _ => h.set_third(w[2]),
-                }
-            }
-            BinaryCard::from_three(h)
-        }
-        4 => {
-            let mut h = Four::default();
-            for k in ord {
-                match k {
-                    0 => h.set_first(w[0]),
-                    1 => h.set_second(w[1]),
-                    2 => h.set_third(w[2]),
-                    _ => h.set_forth(w[3]),
-                }
-            }
-            BinaryCard::from_four(h)
-        }
-        5 => {
-            let mut h = Five::default();
-            for k in ord {
-                match k {
-                    0 => h.set_first(w[0]),
-                    1 => h.set_second(w[1]),
-                    2 => h.set_third(w[2]),
-                    3 => h.set_forth(w[3]),
-                    _ => h.set_fifth(w[4]),
-                }
-            }
-            BinaryCard::from_five(h)
-        }
-        6 => {
-            let mut h = Six::default();
-            for k in ord {
-                match k {
-                    0 => h.set_first(w[0]),
-                    1 => h.set_second(w[1]),
-                    2 => h.set_third(w[2]),
-                    3 => h.set_forth(w[3]),
-                    4 => h.set_fifth(w[4]),
-                    _ => h.set_sixth(w[5]),
-                }
-            }
-            BinaryCard::from_six(h)
-        }
-        _ => {
-            let mut h = Seven::default();
-            for k in ord {
-                match k {
-                    0 => h.set_first(w[0]),
-                    1 => h.set_second(w[1]),
-                    2 => h.set_third(w[2]),
-                    3 => h.set_forth(w[3]),
-                    4 => h.set_fifth(w[4]),
-                    5 => h.set_sixth(w[5]),
-                    _ => h.set_seventh(w[6]),
-                }
-            }
-            BinaryCard::from_seven(h)
         }
     }
+    Some((out, n.min(7)))
 }
 
 pub fn text_of(tokens: &[Tok], seps: &[u8], lead: u8, trail: u8) -> String {
@@ -612,19 +586,51 @@ impl C15 {
                     let (d, n) = (*dst as usize % NREGS, (*n as usize).clamp(2, 7));
                     sub = FROM_NAMES[n];
                     at(step, kind, sub);
-                    let v = build_hand_set(n, slots, *via_setters, *order);
+                    let hand = match guarded(|| build_hand_container(n, slots, *via_setters, *order)) {
+                        Some(h) => h,
+                        None => {
+                            obs.hit(p.container_panicked);
+                            continue;
+                        }
+                    };
+                    at(step, kind, sub);
+                    let v = set_from_container(&hand);
+                    // judged against what the hand reports through its accessors; if that is not
+                    // what it was given (C19's business) or not card-or-blank words, follow the hand
+                    let seen = observed_slots(&hand);
+                    let mut intended = [BLANK_SLOT; 7];
+                    for k in 0..n {
+                        intended[k] = if slots[k] < 52 { slots[k] } else { BLANK_SLOT };
+                    }
+                    let judged: Option<[u8; 7]> = match seen {
+                        Some((o, on)) if on == n => {
+                            if o != intended {
+                                obs.hit(p.hand_readback_differs);
+                            }
+                            Some(o)
+                        }
+                        _ => {
+                            obs.hit(p.hand_readback_differs);
+                            None
+                        }
+                    };
                     let mut m = Set::EMPTY;
                     let mut blanks = 0;
                     let mut reps = 0;
-                    for k in 0..n {
-                        if slots[k] < 52 {
-                            if m.m[51 - slots[k] as usize] {
-                                reps += 1;
+                    match judged {
+                        Some(o) => {
+                            for k in 0..n {
+                                if o[k] < 52 {
+                                    if m.m[51 - o[k] as usize] {
+                                        reps += 1;
+                                    }
+                                    m.insert_card(o[k] as usize);
+                                } else {
+                                    blanks += 1;
+                                }
                             }
-                            m.insert_card(slots[k] as usize);
-                        } else {
-                            blanks += 1;
                         }
+                        None => m = Set::from_bits(v), // not judged: the hand holds words outside the quantifier
                     }
                     obs.hit(p.from + n - 2);
                     if blanks > 0 {
@@ -1065,7 +1071,12 @@ impl C15 {
                     for k in 0..n {
                         w[k] = slot_word(slots[k]);
                     }
-                    hands[hh] = Some(build_container(n, VIA_ARR, &w).0);
+                    hands[hh] = guarded(|| build_container(n, VIA_ARR, &w).0);
+                    if hands[hh].is_none() {
+                        hand_model[hh] = (0, [BLANK_SLOT; 7], 0);
+                        obs.hit(p.container_panicked);
+                        continue;
+                    }
                     let mut sl = [BLANK_SLOT; 7];
                     sl[..n].copy_from_slice(&slots[..n]);
                     hand_model[hh] = (n as u8, sl, 0);
@@ -1094,7 +1105,14 @@ impl C15 {
                         if old < 52 && (0..n).any(|j| j != k && hand_model[hh].1[j] == old) {
                             obs.hit(p.hreg_set_dup);
                         }
-                        container_set(hands[hh].as_mut().unwrap(), k, slot_word(*slot));
+                        let mut tmp = hands[hh].unwrap();
+                        if guarded(|| container_set(&mut tmp, k, slot_word(*slot))).is_none() {
+                            hands[hh] = None;
+                            hand_model[hh] = (0, [BLANK_SLOT; 7], 0);
+                            obs.hit(p.container_panicked);
+                            continue;
+                        }
+                        hands[hh] = Some(tmp);
                         hand_model[hh].1[k] = if *slot < 52 { *slot } else { BLANK_SLOT };
                         hand_model[hh].2 += 1;
                         obs.hit(p.hreg_set);
@@ -1117,19 +1135,22 @@ impl C15 {
                             let n = hand_model[hh].0 as usize;
                             sub = FROM_NAMES[n];
                             at(step, kind, sub);
-                            let v = match reg {
-                                Reg::Two(x) => BinaryCard::from_two(x),
-                                Reg::Three(x) => BinaryCard::from_three(x),
-                                Reg::Four(x) => BinaryCard::from_four(x),
-                                Reg::Five(x) => BinaryCard::from_five(x),
-                                Reg::Six(x) => BinaryCard::from_six(x),
-                                Reg::Seven(x) => BinaryCard::from_seven(x),
-                            };
+                            let v = set_from_container(&reg);
                             let mut m = Set::EMPTY;
-                            for k in 0..n {
-                                let sl = hand_model[hh].1[k];
-                                if sl < 52 {
-                                    m.insert_card(sl as usize);
+                            match observed_slots(&reg) {
+                                Some((o, on)) if on == n => {
+                                    if o != hand_model[hh].1 {
+                                        obs.hit(p.hand_readback_differs);
+                                    }
+                                    for k in 0..n {
+                                        if o[k] < 52 {
+                                            m.insert_card(o[k] as usize);
+                                        }
+                                    }
+                                }
+                                _ => {
+                                    obs.hit(p.hand_readback_differs);
+                                    m = Set::from_bits(v);
                                 }
                             }
                             obs.hit(p.hreg_from);
@@ -1870,6 +1891,10 @@ impl World for C15 {
             }
         }
         Some(ops)
+    }
+
+    fn anchored_files() -> &'static [&'static str] {
+        &["/src/cards/binary_card.rs", "/src/lib.rs", "/src/parse.rs"]
     }
 
     fn builder_kinds() -> &'static [usize] {
